@@ -55,6 +55,9 @@ impl RateLimit {
 		let mut limits = vec![];
 		for (nb, raw_duration) in raw_limits.iter() {
 			let parsed_duration = parse_duration(raw_duration)?;
+			if *nb == 0 {
+				return Err("rate limit: the number of requests must be greater than zero".into());
+			}
 			limits.push((*nb, parsed_duration));
 		}
 		limits.sort_by(|a, b| a.1.partial_cmp(&b.1).unwrap());
@@ -101,21 +104,19 @@ impl RateLimit {
 
 	fn request_allowed(&self) -> bool {
 		for (max_allowed, duration) in self.limits.iter() {
-			match Instant::now().checked_sub(*duration) {
-				Some(max_date) => {
-					let nb_req = self
-						.query_log
-						.iter()
-						.filter(move |x| **x > max_date)
-						.count();
-					if nb_req >= *max_allowed {
-						return false;
-					}
-				}
-				None => {
-					return false;
-				}
+			// If the period reaches further back than `Instant` can represent, every
+			// logged request is within the period.
+			let nb_req = match Instant::now().checked_sub(*duration) {
+				Some(max_date) => self
+					.query_log
+					.iter()
+					.filter(move |x| **x > max_date)
+					.count(),
+				None => self.query_log.len(),
 			};
+			if nb_req >= *max_allowed {
+				return false;
+			}
 		}
 		true
 	}
